@@ -1,4 +1,5 @@
 import N0Verif.Proofs.XPathStore
+import N0Verif.Proofs.XPathFirst
 /-!
   Selecting steps of the xpath engine: the `[*]` fan-out (explicit and implicit) and the
   predicate steps `[k=v]`, `[k!=v]`, `[k~v]`, `k[text()=v]/..` over a list of dict records.
@@ -422,14 +423,33 @@ def selResult (vals : List Val) (dflt : PyM Val) : PyM Val := if vals.isEmpty th
 theorem hasPathChar_slash (a b : Str) : hasPathChar (a ++ slash ++ b) = true := by
   simp [hasPathChar, slash]
 
-/-- `first`'s final step: a one-element list is replaced by its element -/
-def unwrap1 : Val → Val
-  | .list _ [x] => x
-  | v => v
-
-/-- what `first` returns for the selected values `vals` (default `d`) -/
+/-- what `first` returns for the selected values `vals` (default `d`): the caller's default **as it is** when nothing
+is selected (fix C04-f), a single match unwrapped once more by `first`'s final step (`unwrap1`, `Model/XPathApi.lean`:
+a one-element list is replaced by its element), the list of the matches when there are several -/
 def firstOf (vals : List Val) (d : Val) : Val :=
-  unwrap1 (match vals with | [] => d | [v] => v | vs => .list .n0 vs)
+  match vals with
+  | [] => d
+  | [v] => unwrap1 v
+  | vs => .list .n0 vs
+
+/-- `first` from what the `return_lists=False` lookup gives for every default (`b`: something was selected) -/
+theorem first_of_collect {fuel : Nat} {root t' : Val} {xp : Str} {b : Bool} {val : Val} (vals : List Val)
+    (h : ∀ d, getCore fuel root xp d false false = (t', if b then .ok val else .ok d))
+    (hb : b = !vals.isEmpty) (hv : b = true → val = collect false vals) (d : Val) :
+    first fuel root xp d = (t', .ok (firstOf vals d)) := by
+  rw [first_of_ite h d]
+  cases vals with
+  | nil =>
+    have : b = false := by simp [hb]
+    simp [this, firstOf]
+  | cons v vs =>
+    have hbt : b = true := by simp [hb]
+    have hv' := hv hbt
+    subst hbt
+    simp only [if_true, hv']
+    cases vs with
+    | nil => simp [collect, firstOf]
+    | cons v2 vs => simp [collect, firstOf, unwrap1]
 
 /-- **API layer.**  If `_find` on the tokens of `xp` selects `vals` (for either value of `return_lists`),
 then `get` returns the list (the default when empty), item access the list (IndexError when empty), `first`
@@ -456,31 +476,8 @@ theorem select_api (cls : Cls) (kvs : List (Str × Val)) (xp : Str) (toks : List
     | false =>
       have : r1.isFound = true := by simp [hf1, he]
       simp [this, hv1 this, collect]
-  · rw [first, getCore_of_find cls kvs xp toks d false false fuel r0 hq hpc htok hr0]
-    cases vals with
-    | nil =>
-      have : r0.isFound = false := by simp [hf0]
-      simp only [this, Bool.false_eq_true, if_false, firstOf]
-      cases d with
-      | list c xs =>
-        cases xs with
-        | nil => rfl
-        | cons x xs => cases xs <;> rfl
-      | _ => rfl
-    | cons v vs =>
-      have hfd : r0.isFound = true := by simp [hf0]
-      have hv := hv0 hfd
-      simp only [hfd, if_true, hv, firstOf]
-      cases vs with
-      | nil =>
-        simp only [collect, Bool.not_false, List.length_singleton, decide_true, Bool.and_self, if_true, List.headD_cons]
-        cases v with
-        | list c xs =>
-          cases xs with
-          | nil => rfl
-          | cons x xs => cases xs <;> rfl
-        | _ => rfl
-      | cons v2 vs => simp [collect, unwrap1]
+  · exact first_of_collect vals
+      (fun d' => getCore_of_find cls kvs xp toks d' false false fuel r0 hq hpc htok hr0) hf0 hv0 d
 
 /-- **`name[*]/f` and `name/f`** for the records `rs` stored under the key `name` of the root. -/
 theorem star_api (cls : Cls) (kvs : List (Str × Val)) (name f : Str) (lc : Cls) (rs : List Val) (d : Val)
@@ -1228,14 +1225,8 @@ theorem select_api_err (cls : Cls) (kvs : List (Str × Val)) (xp : Str) (toks : 
   refine ⟨?_, ?_, ?_⟩
   · rw [get, getCore_of_find_err cls kvs xp toks d false true fuel hq hpc htok (hfind true)]; rfl
   · rw [getItem, getCore_of_find_err cls kvs xp toks Val.none true true fuel hq hpc htok (hfind true)]; rfl
-  · rw [first, getCore_of_find_err cls kvs xp toks d false false fuel hq hpc htok (hfind false)]
-    simp only [Bool.false_eq_true, if_false, firstOf]
-    cases d with
-    | list c xs =>
-      cases xs with
-      | nil => rfl
-      | cons x xs => cases xs <;> rfl
-    | _ => rfl
+  · exact first_of_miss
+      (fun d' => by rw [getCore_of_find_err cls kvs xp toks d' false false fuel hq hpc htok (hfind false)]; rfl) d
 
 theorem cond_text_chars (k opx op vq v : Str) (hk : CondKey k) (hop : OpSpell opx op) (hlit : LitSpell vq v) (hv : PlainLit v) :
     ∀ c ∈ k ++ opx ++ vq, c ≠ ']' ∧ c ≠ '/' := by
